@@ -84,6 +84,20 @@ CHECKS = {
    note="Trusted as C03, plus: user authenticators modelled as token predicates; the declarative spec picks bearer alternatives first among several "
         "accepted ones (the property leaves the choice open; theorems state membership). Dispatch itself is C03.",
    ref="DESIGN.md section 4 (C11)"),
+ "C15": dict(
+   technique="Coq proof over a nil-explicit document model that every dereference in the generator's front is guarded or guaranteed by the loader + structural mutation of real specs in worker subprocesses",
+   text="C15_no_panic: over a document model with an explicit nil at every optional OpenAPI field the generator dereferences (schema of a media "
+        "type / parameter / header, array items, media type, request body, path item, server, server variable and its untyped default/enum, "
+        "component alias chains), the model of specification/*.go's constructors (with the guards the code has) never reaches a nil dereference "
+        "for any document satisfying the loader's post-condition, of any size; C15_loader_inv_needed shows the hypothesis is not vacuous. Tie: "
+        "fixture specs + map-fat spec + regression documents under structural mutation (30 per base quick, 900 thorough), real loader + real "
+        "Generate under recover() in worker subprocesses (a dying worker is a crash), a sample through the built command for the exit status; the "
+        "extracted model runs on an abstraction of each accepted mutant: no panic predicted, loader post-condition holds, guards that fire "
+        "coincide with reported errors. Errors are checked to carry a location context.",
+   note="Trusted: Coq kernel; the hand audit that Model/NilSafety.v is (which derefs exist and where they are guarded) — checked only by the "
+        "mutation run; driver.ml abs_doc; kin-openapi loader post-condition; text/template turning render-method panics into errors. Loader "
+        "panics (kin-openapi crashes on `content: {application/json: null}`) are outside the property (document not accepted).",
+   ref="DESIGN.md section 4 (C15)"),
  "C16": dict(
    technique="Coq proof of the trace shape of API.ServeHTTP's model + verbatim trace comparison against the compiled package",
    text="C16_wrapping: every dispatched request's trace is Enter 0..n-1 (each seeing the matched template) ++ inner ++ Leave n-1..0 with inner "
